@@ -33,6 +33,8 @@ def Part.placed (s : Part) (src nx : Nat) : Part :=
 structure PI (s : Part) (D : List Nat) : Prop where
   hn : 0 < s.n
   hper : 0 < s.per
+  /-- the partitions cover the grid -/
+  hcov : s.numWG ≤ s.n * s.per
   lpos : s.pos.length = s.n
   lcur : s.cur.length = s.n
   ldisp : s.disp.length = s.n
@@ -101,7 +103,7 @@ theorem nextWG_spec (s : Part) (D : List Nat) (i : Nat) (h : PI s D) (hi : i < s
           ∀ w src, some (s.pos.getD i 0, i) = some (w, src) → src < s.n ∧ (s.fetched i).curAt src = some w
         refine ⟨?_, rfl, rfl, rfl, rfl, ?_⟩
         · exact {
-            hn := h.hn, hper := h.hper
+            hn := h.hn, hper := h.hper, hcov := h.hcov
             lpos := by show (s.pos.set i _).length = s.n; rw [List.length_set]; exact h.lpos
             lcur := by show (s.cur.set i _).length = s.n; rw [List.length_set]; exact h.lcur
             ldisp := h.ldisp
@@ -175,7 +177,7 @@ theorem place_spec (s : Part) (D : List Nat) (src w nx : Nat) (h : PI s D) (hs :
   have eN : (s.placed src nx).n = s.n := rfl
   have eW : (s.placed src nx).numWG = s.numWG := rfl
   exact {
-    hn := h.hn, hper := h.hper, lpos := h.lpos
+    hn := h.hn, hper := h.hper, hcov := h.hcov, lpos := h.lpos
     lcur := by show (s.cur.set src _).length = s.n; rw [List.length_set]; exact h.lcur
     ldisp := by show (s.disp.set src _).length = s.n; rw [List.length_set]; exact h.ldisp
     hcur := by
@@ -346,6 +348,10 @@ theorem start_PI (numWG n : Nat) (hn : 0 < n) : PI (Part.start numWG n) [] := by
   exact {
     hn := hn
     hper := Nat.succ_pos _
+    hcov := by
+      show numWG ≤ n * ((numWG - 1) / n + 1)
+      have := Nat.lt_mul_div_succ (numWG - 1) hn
+      omega
     lpos := by simp [Part.start]
     lcur := by simp [Part.start]
     ldisp := by simp [Part.start]
@@ -399,5 +405,224 @@ theorem part_conserves (numWG n fuel : Nat) (fails : List Bool) (hn : 0 < n) :
   intro hb
   have := r4 hb
   exact (List.reverse_perm D').trans (perm_range_of_nodup D' numWG r1.hnd hlt (by rw [← r1.hcnt]; omega))
+
+/-! ## the loop never gets stuck when the refusals are finitely many -/
+
+/-- number of refusals still to come -/
+def countT (fails : List Bool) : Nat := (fails.filter (· = true)).length
+
+theorem countT_tail_le (fails : List Bool) : countT fails.tail ≤ countT fails := by
+  cases fails with
+  | nil => exact Nat.le_refl _
+  | cons b bs =>
+    simp only [countT, List.tail_cons, List.filter_cons]
+    split <;> simp <;> omega
+
+theorem countT_tail_lt (fails : List Bool) (h : fails.headD false = true) : countT fails.tail < countT fails := by
+  cases fails with
+  | nil => simp at h
+  | cons b bs =>
+    simp only [List.headD_cons] at h
+    subst h
+    simp [countT]
+
+/-- partition `j` can offer a work-group to its own CU -/
+def avail (s : Part) (j : Nat) : Prop :=
+  s.dispAt j < s.per ∧ (s.curAt j ≠ none ∨ s.posAt j < s.numWG)
+
+theorem nextWG_none (s : Part) (i : Nat) (h : (s.nextWG i).2 = none) : (s.nextWG i).1 = s ∧ ¬ avail s i := by
+  unfold Part.nextWG at h ⊢
+  by_cases hge : s.disp.getD i 0 ≥ s.per
+  · have hna : ¬ avail s i := fun ha => by have := ha.1; unfold Part.dispAt at this; omega
+    simp only [hge, if_true] at h ⊢
+    cases hfd : (List.range s.n).find? (fun j => (s.cur.getD j none).isSome) with
+    | none => exact ⟨rfl, hna⟩
+    | some j =>
+      rw [hfd] at h
+      simp only [] at h ⊢
+      cases hc : s.cur.getD j none with
+      | none => exact ⟨rfl, hna⟩
+      | some w => rw [hc] at h; cases h
+  · simp only [hge, if_false] at h ⊢
+    cases hc : s.cur.getD i none with
+    | some w => rw [hc] at h; cases h
+    | none =>
+      rw [hc] at h
+      simp only [] at h ⊢
+      by_cases hp : s.pos.getD i 0 < s.numWG
+      · rw [if_pos hp] at h; cases h
+      · rw [if_neg hp]
+        refine ⟨rfl, ?_⟩
+        rintro ⟨_, ha | ha⟩
+        · exact ha hc
+        · exact hp ha
+
+/-- monotonicity of the loop: refusals are only consumed; without a placement the counter stays -/
+theorem nextGo_mono : ∀ (k idx : Nat) (s : Part) (fails : List Bool) (D : List Nat), PI s D →
+    countT (Part.nextGo k idx s fails).2.1 ≤ countT fails ∧
+    ((Part.nextGo k idx s fails).2.2 = none → (Part.nextGo k idx s fails).1.nd = s.nd) ∧
+    ((Part.nextGo k idx s fails).2.2 ≠ none → (Part.nextGo k idx s fails).1.nd = s.nd + 1) := by
+  intro k
+  induction k with
+  | zero => intro idx s fails D _; exact ⟨Nat.le_refl _, fun _ => rfl, fun h => absurd rfl h⟩
+  | succ k ih =>
+    intro idx s fails D h
+    have hi : (idx + s.next) % s.n < s.n := Nat.mod_lt _ h.hn
+    obtain ⟨p1, p2, p3, p4, p5, p6⟩ := nextWG_spec s D _ h hi
+    simp only [Part.nextGo]
+    rcases hr : s.nextWG ((idx + s.next) % s.n) with ⟨s1, res⟩
+    rw [hr] at p1 p4
+    simp only at p1 p4
+    cases res with
+    | none =>
+      simp only []
+      obtain ⟨q1, q2, q3⟩ := ih (idx + 1) s1 fails D p1
+      exact ⟨q1, fun hc => by rw [q2 hc, p4], fun hc => by rw [q3 hc, p4]⟩
+    | some ws =>
+      obtain ⟨w, src⟩ := ws
+      simp only []
+      by_cases hfl : fails.headD false = true
+      · simp only [hfl, if_true]
+        obtain ⟨q1, q2, q3⟩ := ih (idx + 1) s1 fails.tail D p1
+        exact ⟨Nat.le_trans q1 (countT_tail_le fails), fun hc => by rw [q2 hc, p4], fun hc => by rw [q3 hc, p4]⟩
+      · simp only [hfl, Bool.false_eq_true, if_false]
+        exact ⟨countT_tail_le fails, fun hc => (by cases hc), fun _ => (by show s1.nd + 1 = _; rw [p4])⟩
+
+/-- if one of the partitions the loop still visits can offer a work-group and nothing is placed, a
+    refusal was consumed -/
+theorem nextGo_progress : ∀ (k idx : Nat) (s : Part) (fails : List Bool) (D : List Nat), PI s D →
+    (∃ d, d < k ∧ avail s ((idx + d + s.next) % s.n)) →
+    (Part.nextGo k idx s fails).2.2 = none →
+    countT (Part.nextGo k idx s fails).2.1 < countT fails := by
+  intro k
+  induction k with
+  | zero => intro idx s fails D _ ⟨d, hd, _⟩; omega
+  | succ k ih =>
+    intro idx s fails D h ⟨d, hd, hav⟩
+    have hi : (idx + s.next) % s.n < s.n := Nat.mod_lt _ h.hn
+    obtain ⟨p1, p2, p3, p4, p5, p6⟩ := nextWG_spec s D _ h hi
+    have hnone := nextWG_none s ((idx + s.next) % s.n)
+    simp only [Part.nextGo]
+    rcases hr : s.nextWG ((idx + s.next) % s.n) with ⟨s1, res⟩
+    rw [hr] at p1 p2 hnone
+    simp only at p1 p2 hnone
+    cases res with
+    | none =>
+      simp only []
+      obtain ⟨e1, e2⟩ := hnone rfl
+      subst e1
+      intro hres
+      refine ih (idx + 1) s1 fails D p1 ?_ hres
+      have hd0 : d ≠ 0 := by
+        intro e; subst e; exact e2 (by simpa using hav)
+      refine ⟨d - 1, by omega, ?_⟩
+      have : idx + 1 + (d - 1) = idx + d := by omega
+      rw [this]; exact hav
+    | some ws =>
+      obtain ⟨w, src⟩ := ws
+      simp only []
+      by_cases hfl : fails.headD false = true
+      · simp only [hfl, if_true]
+        intro _
+        exact Nat.lt_of_le_of_lt (nextGo_mono k (idx + 1) s1 fails.tail D p1).1 (countT_tail_lt fails hfl)
+      · simp only [hfl, Bool.false_eq_true, if_false]
+        intro hc; cases hc
+
+/-- the loop of `Next` visits every partition -/
+theorem visits_all (n next j : Nat) (hn : 0 < n) (hj : j < n) : ∃ d, d < n ∧ (0 + d + next) % n = j := by
+  have hq := Nat.div_add_mod next n
+  have hr : next % n < n := Nat.mod_lt _ hn
+  by_cases hge : next % n ≤ j
+  · refine ⟨j - next % n, by omega, ?_⟩
+    have : 0 + (j - next % n) + next = j + n * (next / n) := by omega
+    rw [this, Nat.add_mul_mod_self_left, Nat.mod_eq_of_lt hj]
+  · refine ⟨j + n - next % n, by omega, ?_⟩
+    have hm : n * (next / n + 1) = n * (next / n) + n := Nat.mul_succ _ _
+    have : 0 + (j + n - next % n) + next = j + n * (next / n + 1) := by omega
+    rw [this, Nat.add_mul_mod_self_left, Nat.mod_eq_of_lt hj]
+
+/-- while work-groups are left, some partition can offer one -/
+theorem avail_exists (s : Part) (D : List Nat) (h : PI s D) (hlt : s.nd < s.numWG) : ∃ j, j < s.n ∧ avail s j := by
+  -- a work-group that was not placed yet
+  have hw : ∃ w, w < s.numWG ∧ w ∉ D := by
+    apply Classical.byContradiction
+    intro hno
+    have hsub : List.range s.numWG ⊆ D := by
+      intro w hw
+      apply Classical.byContradiction
+      intro hnw
+      exact hno ⟨w, List.mem_range.1 hw, hnw⟩
+    have := List.Nodup.length_le_of_subset List.nodup_range hsub
+    rw [List.length_range, ← h.hcnt] at this
+    omega
+  obtain ⟨w, hwlt, hwD⟩ := hw
+  have hper := h.hper
+  have hj : w / s.per < s.n := Nat.div_lt_of_lt_mul (by rw [Nat.mul_comm]; exact Nat.lt_of_lt_of_le hwlt h.hcov)
+  have h1 : w / s.per * s.per ≤ w := Nat.div_mul_le_self w s.per
+  have h2 : w < s.per * (w / s.per + 1) := Nat.lt_mul_div_succ w hper
+  have h2' : w < w / s.per * s.per + s.per := by
+    rw [Nat.mul_succ, Nat.mul_comm] at h2; exact h2
+  refine ⟨w / s.per, hj, ?_⟩
+  have hnot : ¬ (w / s.per * s.per ≤ w ∧ w < w / s.per * s.per + s.dispAt (w / s.per)) :=
+    fun hc => hwD ((h.hD w).2 ⟨_, hj, hc.1, hc.2⟩)
+  have hd : s.dispAt (w / s.per) < s.per := by
+    apply Classical.byContradiction
+    intro hge
+    exact hnot ⟨h1, by omega⟩
+  refine ⟨hd, ?_⟩
+  cases hc : s.curAt (w / s.per) with
+  | some x => left; simp
+  | none =>
+    right
+    rw [h.hnone _ hj hc]
+    have : ¬ w < w / s.per * s.per + s.dispAt (w / s.per) := fun hc' => hnot ⟨h1, hc'⟩
+    omega
+
+/-- one `Next` while work-groups are left: a placement, or a refusal was consumed -/
+theorem nextStep_progress (s : Part) (fails : List Bool) (D : List Nat) (h : PI s D) (hlt : s.nd < s.numWG) :
+    s.numWG - (s.nextStep fails).1.nd + countT (s.nextStep fails).2.1 < s.numWG - s.nd + countT fails := by
+  unfold Part.nextStep
+  have hge : ¬ s.nd ≥ s.numWG := by omega
+  rw [if_neg hge]
+  obtain ⟨m1, m2, m3⟩ := nextGo_mono s.n 0 s fails D h
+  cases hres : (Part.nextGo s.n 0 s fails).2.2 with
+  | none =>
+    obtain ⟨j, hj, hav⟩ := avail_exists s D h hlt
+    obtain ⟨d, hd, he⟩ := visits_all s.n s.next j h.hn hj
+    have := nextGo_progress s.n 0 s fails D h ⟨d, hd, by rw [he]; exact hav⟩ hres
+    rw [m2 hres]
+    omega
+  | some cw =>
+    have := m3 (by rw [hres]; simp)
+    rw [this]
+    omega
+
+theorem run_not_stuck : ∀ (k : Nat) (s : Part) (fails : List Bool) (acc : List (Option (Nat × Nat))) (D : List Nat),
+    PI s D → s.numWG - s.nd + countT fails ≤ k → (Part.run k s fails acc).2 = false := by
+  intro k
+  induction k with
+  | zero =>
+    intro s fails acc D _ hk
+    simp only [Part.run, decide_eq_false_iff_not]
+    omega
+  | succ k ih =>
+    intro s fails acc D h hk
+    simp only [Part.run]
+    by_cases hlt : s.nd < s.numWG
+    · simp only [hlt, if_true]
+      have hp := nextStep_progress s fails D h hlt
+      obtain ⟨n1, n2, n3, _⟩ := nextStep_spec s fails D h
+      cases hr : (s.nextStep fails).2.2 with
+      | none => exact ih _ _ _ D (n1 hr) (by rw [n3]; omega)
+      | some cw =>
+        obtain ⟨c0, w0⟩ := cw
+        exact ih _ _ _ (w0 :: D) (n2 c0 w0 hr).1 (by rw [n3]; omega)
+    · simp only [hlt, if_false]
+
+/-- with `numWG + #refusals` calls of `Next` the loop ends because every work-group was placed -/
+theorem part_never_stuck (numWG n fuel : Nat) (fails : List Bool) (hn : 0 < n)
+    (hfuel : numWG + countT fails ≤ fuel) :
+    (Part.run fuel (Part.start numWG n) fails []).2 = false :=
+  run_not_stuck fuel _ fails [] [] (start_PI numWG n hn) (by show numWG - 0 + _ ≤ _; omega)
 
 end C09
